@@ -36,7 +36,8 @@ CAP = {}
 
 class _FakeZarr:
     def __init__(self, shape, dtype):
-        self.arr = SArr.const(shape, -1, dtype)
+        # zarr.open_array creates the array with fill value 0: cells the exporter never writes read back as background
+        self.arr = SArr.const(shape, 0, dtype)
 
     def __setitem__(self, key, value):
         self.arr[key] = value
@@ -222,6 +223,11 @@ def build(ctx, cfg):
                 ctx.add(x <= int(np.iinfo(seg_dt).max))
             if cfg.get("max_label") is not None:
                 ctx.add(x <= cfg["max_label"])  # bounded run: unmodelled numpy calls are followed by realisation
+        # (Inv item 5, the half an exporter may rely on) a node's label occurs in the node's own frame only; labels
+        # that belong to no node stay arbitrary
+        for idx in np.ndindex(*shape):
+            for i in range(N):
+                ctx.add(z3.Implies(z3.And(p.seg0[idx] == ids[i], p.alive0[i]), p.t0[i] == idx[0]))
     scale_none = cfg.get("scale", "none") == "none"
     scale = None if scale_none else [1.0, 2.0, 3.0, 4.0][:len(shape)]
     tr = SolutionTracks(nx.DiGraph(), segmentation=None if seg is None else np.zeros(shape, dtype=np.int64),
